@@ -176,3 +176,28 @@ def vr_obl(op, slew=None, difbits=20, timeout=400, tiers=('quick', 'thorough')):
                stubs=['coefficient tables zero (data only)'],
                ignore_props=[r'set_step_step:\d+ arithmetic overflow on signed type conversion in \(signed int\)dif'],
                funcs=['vr32.c:set_step_step', 'vr32.c:set_step', 'vr32.c:poly_fir_u', 'vr32.c:poly_fir_d'])
+
+
+PLAN_OPS = {0: 'set_dft_length', 1: 'dft_stage_init', 2: 'init_validation'}
+PLAN_STUBS = ['log(): log2 bracket floor(log2 x) <= r < floor(log2 x)+1 (only used as log(a)/log(2))', 'lsx_design_lpf / lsx_fir_to_phase: any length <= 33 of the forced residue class, any peak position',
+              'rdft_cb: set-up functions check the documented pffft precondition; transforms are no-ops']
+
+
+def plan_obl(op, rdft_flags=None, kf=None, timeout=300):
+    defs = ['-DVF_OP=%d' % op] + (['-DVF_RDFT_FLAGS=%s' % rdft_flags] if rdft_flags is not None else [])
+    name = 'plan_%s%s%s' % (PLAN_OPS[op], '' if rdft_flags is None else '_flags%s' % rdft_flags, '_probe' if kf else '')
+    return Obl(name=name, src='cr_plan.c', defs=defs, unwind=35 if op != 2 else 1, unwinding_assertions=(op != 2), timeout=timeout, kf=kf,
+               desc={0: 'set_dft_length (cr.c) for every filter length <= 2^20 and every documented log2_min/large_dft_size',
+                     1: 'dft_stage_init (cr.c): DFT-stage envelope established for every L <= 256, M <= 4, phase, filter length / peak position the design may return',
+                     2: '_soxr_init (cr.c): every out-of-range precision / phase / transition band / ratio is rejected before the rate object is touched (NULL rate object: acceptance would be a reported NULL dereference)'}[op],
+               bounds={0: 'num_taps 1..2^20, min 8..15, large 8..20', 1: 'L 1..256, M 1..4, filter length <= 33, log2 DFT sizes 8..12', 2: 'all doubles except NaN; paths after the validation are cut (unwind 1, no unwinding assertion)'}[op],
+               stubs=PLAN_STUBS, funcs=['cr.c:set_dft_length', 'cr.c:dft_stage_init', 'cr.c:_soxr_init'],
+               ignore_props=[r'_soxr_init:\d+ dereference failure: pointer NULL'] if False else [])
+
+
+def kern_eq_obl(pair):
+    names = {0: ('u100_0', 'vpoly0'), 1: ('u100_1', 'vpoly1'), 2: ('u100_2', 'vpoly2'), 3: ('U100_0', 'vpoly0')}[pair]
+    return Obl(name='kern_eq_%s_vs_%s' % names, src='kern_eq.c', defs=['-DVF_PAIR=%d' % pair], unwind=66, timeout=300,
+               desc='fixed-length portable kernel %s vs the general kernel %s on the poly_firs[] row that names it: bit-identical outputs, consumption and clock' % names,
+               bounds='CONCRETE probe states (8 clock fractions separating every PHASE_BITS value, index-revealing table, distinct sample weights): decided by symbolic execution (constant propagation) - no quantification; a symbolic table/clock exceeded 10 GB',
+               stubs=['generated table vf_coefs[i] == i'], funcs=['cr-core.c:%s' % names[0], 'cr-core.c:%s' % names[1], 'cr-core.c:poly_firs'])
